@@ -15,7 +15,10 @@ var c06tags = []string{"div", "p", "span", "ul", "li", "b", "section", "a", "em"
 var c06void = []string{"br", "hr", "img", "input", "meta", "link", "wbr"}
 
 func braceText(r *Rng) string {
-	alpha := []string{"{", "}", "{", "}", "-", "\"", " ", "\n", "a", "b", "x", "{{", "}}", "`", "'", "<", "&", "%", "$", "\\", "é", "日", "\t"}
+	// multi-byte runes include ones whose LAST byte is 0x85 / 0xA0 (à, х) and the non-ASCII spaces NEL, NBSP, LS: none of them is
+	// white space for the template lexer's trim markers
+	alpha := []string{"{", "}", "{", "}", "-", "\"", " ", "\n", "a", "b", "x", "{{", "}}", "`", "'", "<", "&", "%", "$", "\\", "é", "日", "\t",
+		"à", "х", "\u0085", "\u00a0", "\u2028", "%s", "%d"}
 	n := r.Range(1, 7)
 	var b strings.Builder
 	for i := 0; i < n; i++ {
@@ -25,7 +28,8 @@ func braceText(r *Rng) string {
 }
 
 func plainText(r *Rng) string {
-	w := []string{"Hello", "world", " and ", "x", "1 < 2", "a&b", " ", "\n  ", "text.", "fn(){}", "{", "}", "}}", "{{", "a{", "{b", "f(){}}"}
+	w := []string{"Hello", "world", " and ", "x", "1 < 2", "a&b", " ", "\n  ", "text.", "fn(){}", "{", "}", "}}", "{{", "a{", "{b", "f(){}}",
+		"voilà", "Ах", "100% off", "50%", "{{{body}}}", "{{{{", "x {{{ 1 }}} y", "a\u00a0", "{{{"}
 	return w[r.Intn(len(w))]
 }
 
@@ -70,6 +74,12 @@ func (g *sgen) node(depth int) []interface{} {
 		}
 		return []interface{}{nTag(c06void[r.Intn(len(c06void))], r.Bool(), nil, ks...)}
 	case 7:
+		if r.Chance(1, 3) {
+			// explicit self-closing syntax (`path/`) on an element that is not in the void table, no children
+			t := nTag([]string{"path", "circle", "my-icon", "use", "div", "span"}[r.Intn(6)], r.Bool(), nil)
+			t["sc"] = true
+			return []interface{}{t}
+		}
 		return []interface{}{nBuf(eId([]string{"s", "n", "t"}[r.Intn(3)]), true)}
 	case 8:
 		// string literal with braces (escaped output; `${` would make it a template literal)
